@@ -332,6 +332,14 @@ class Extractor:
             if n.get("base") is not None:
                 out += self.emit(n["base"])
             return out
+        if k == "assign" and self.mode == "r":
+            # `header.FIELD = Some(reader.read_u64()?)`: the value read fills that field
+            toks = self.emit(n["r"])
+            l = hirq.strip(n["l"])
+            prims = [t for t in toks if t.k in ("P", "B", "S")]
+            if l.get("k") == "field" and len(prims) == 1 and prims[0].name is None:
+                prims[0].name = l["name"]
+            return self.emit(n["l"]) + toks
         out = []
         for key in ("e", "l", "r", "i", "init", "c", "es"):
             v = n.get(key)
